@@ -208,3 +208,14 @@ fn c20_hist_u8_ops3() {
     kani::cover!(a.interval_count() == 0, "pool empty reached from new()");
     core::mem::forget(a);
 }
+
+/// allocator over [lowest, highest] whose free pool is the given runs (used by other child modules)
+pub(crate) fn mk_alloc_u16(lowest: u16, highest: u16, ivs: &[(u16, u16)]) -> ValueAllocator<u16> {
+    let mut a = ValueAllocator::<u16> { pool: BTreeSet::new(), lowest, highest };
+    let mut i = 0;
+    while i < ivs.len() {
+        a.pool.insert(ValueInterval::new_range(ivs[i].0, ivs[i].1));
+        i += 1;
+    }
+    a
+}
